@@ -53,6 +53,8 @@ Definition spec_C19 (i : winput) (o : obs_C19) : bool :=
   | WSub _ _ _ => true                   (* sub_ontology ends in build_minimal: no defaults *)
   | WBulk _ _ _ _ => true                (* generated for C03 only *)
   | WMany _ _ _ _ => true                (* generated for C10 only; build_minimal *)
+  | WDefaults _ =>                       (* the two public setters called on an existing ontology: the defaults, whatever was set before *)
+      match o with Ok (ts, cat, mo) => defaults_ok ts cat mo | _ => true end
   | WCustom _ _ _ =>                     (* user-chosen groups: the queries follow the groups that are set *)
       match o with
       | Ok (ts, cat, mo) =>
